@@ -381,7 +381,7 @@ class _Stop(Exception):
 
 
 class ParseResult:
-    __slots__ = ('verdict', 'at', 'why', 'events', 'deprecated', 'annotated', 'items', 'unknown_items', 'start')
+    __slots__ = ('verdict', 'at', 'why', 'events', 'deprecated', 'annotated', 'items', 'unknown_items', 'start', 'annotations')
 
 
 class RefParser:
@@ -411,6 +411,8 @@ class RefParser:
         self.unknown_items = 0
         self.pending_comment = None
         self.includes = 0
+        self.cur_top = None
+        self.annotations = []
         r = ParseResult()
         r.why = ''
         r.start = None
@@ -423,6 +425,7 @@ class RefParser:
         r.deprecated = self.deprecated
         r.items = self.items
         r.unknown_items = self.unknown_items
+        r.annotations = self.annotations
         return r
 
     # -- helpers
@@ -451,7 +454,7 @@ class RefParser:
         return self.cb_fail and self.cb_seen == self.cb_fail
 
     # -- grammar
-    def body(self, sec, depth):
+    def body(self, sec, depth, path=b''):
         while True:
             # annotation candidate: the last comment directly in front of the item
             start = self.i
@@ -473,14 +476,16 @@ class RefParser:
             if t.k != 'S':
                 raise _Stop(REJECT, self.i, 'unexpected token')
             name_i = self.i
+            if depth == 0:
+                self.cur_top = self.toks[self.i].t
             try:
-                self.item(sec, depth, comment, start)
+                self.item(sec, depth, comment, start, path)
             except _Stop as s:
                 if s.start is None:
                     s.start = name_i
                 raise
 
-    def item(self, sec, depth, comment, start):
+    def item(self, sec, depth, comment, start, path=b''):
         name_i = self.i
         name = self.toks[self.i].t
         self.i += 1
@@ -510,13 +515,13 @@ class RefParser:
                 raise _Stop(REJECT, name_i, 'no such option')
         d = o.decl
         if d.kind == 'sec':
-            self.section_item(sec, o, depth, name_i)
+            self.section_item(sec, o, depth, name_i, path)
             kind = 'sec'
         elif d.kind == 'func':
             self.func_item(sec, o, name_i)
             kind = 'func'
         else:
-            self.value_item(sec, o, comment)
+            self.value_item(sec, o, comment, path)
             kind = 'value'
         if d.has('D'):
             self.deprecated.append((d.name, self.i))
@@ -524,7 +529,7 @@ class RefParser:
                 o.values = []
         self.items.append((start, self.i, depth, kind))
 
-    def value_item(self, sec, o, comment):
+    def value_item(self, sec, o, comment, path=b''):
         d = o.decl
         t = self.need('after option name')
         if t.k == '+':
@@ -551,6 +556,7 @@ class RefParser:
             self.validate(o)
             if self.comments and comment is not None:
                 o.comment = comment
+                self.annotations.append((path + d.name, comment))
             return
         # list
         t = self.need('list value')
@@ -592,6 +598,7 @@ class RefParser:
             self.validate(o)
             if self.comments and comment is not None and nvals == 1:
                 o.comment = comment
+                self.annotations.append((path + d.name, comment))
             t = self.need('inside list')
             if t.k == ',':
                 self.i += 1
@@ -621,11 +628,24 @@ class RefParser:
     def validate(self, o, closing=False):
         if 'v' in o.decl.cbs:
             fail = self.tick()
-            self.events.append(('v', o.decl.name, closing))
+            d = o.decl
+            n = len(o.values)
+            last = None
+            if n:
+                v = o.values[-1]
+                if d.kind in ('int', 'bool'):
+                    last = '%d' % v
+                elif d.kind == 'float':
+                    last = fmt_float(v)
+                elif d.kind in ('str', 'ptr'):
+                    last = enc(v)
+                elif d.kind == 'sec':
+                    last = enc(v.title)
+            self.events.append(('v', d.name, closing, n, last))
             if fail:
                 raise _Stop(REJECT, self.i, 'validation callback failed')
 
-    def section_item(self, sec, o, depth, name_i):
+    def section_item(self, sec, o, depth, name_i, path=b''):
         d = o.decl
         title = None
         if d.has('T'):
@@ -668,7 +688,13 @@ class RefParser:
                     o.values.append(inst)
             else:
                 o.values.append(inst)
-        self.body(inst, depth + 1)
+        if not d.has('M'):
+            step = d.name
+        elif d.has('T'):
+            step = d.name + b"='" + title.replace(b'\\', b'\\\\').replace(b"'", b"\\'") + b"'"
+        else:
+            step = d.name + b'=%d' % (len(o.values) - 1)
+        self.body(inst, depth + 1, path + step + b'|')
         self.validate(o)
 
     def func_item(self, sec, o, name_i):
